@@ -92,7 +92,11 @@ def run_tlc(ctx, module, cfg, *, workers=8, simulate=None, depth=None, env=None,
             shutil.copy(os.path.join(SPEC, f), wd)
     shutil.copy(os.path.join(SPEC, cfg), os.path.join(wd, module + ".cfg"))
     out_path = os.path.join(wd, "out.txt")
-    jopts = f"-Xss1g -Xmx{heap}"
+    # TLC unpacks its standard modules into java.io.tmpdir (one tlc-<n> directory per run): keep that inside the run's
+    # own work directory, which is removed with it, instead of /tmp
+    jtmp = os.path.join(wd, "jtmp")
+    os.makedirs(jtmp, exist_ok=True)
+    jopts = f"-Xss1g -Xmx{heap} -Djava.io.tmpdir={jtmp}"
     if deque:
         jopts += " -Dtlc2.tool.queue.IStateQueue=StateDeque"
     cmd = ["timeout", str(timeout), "java", "-XX:+UseParallelGC"] + jopts.split() + [
